@@ -192,8 +192,13 @@ class SLock:
     def can_acquire(self, tid):
         return self.owner is None or (self.reentrant and self.owner == tid)
 
+    def locked(self):
+        return self.owner is not None
+
     def acquire(self, blocking=True, timeout=-1):
         tid = self.s.me()
+        if not blocking and not self.can_acquire(tid):
+            return False
         while not self.can_acquire(tid):
             self.s.blocked[tid] = self
             self.s.yield_(tid)
